@@ -12,1055 +12,1048 @@ Definition show_fres (r : fres) : string :=
   end.
 Definition check (rs : list rune) : string := digest (show_fres (format_res rs)).
 Definition full (rs : list rune) : string := show_fres (format_res rs).
-Eval vm_compute in ("<<<M1569>>>" ++ check (runes_of_ascii "packet metadata {
-    repeat f64 Foo,
-    repeat Logon f32a `
-    `,
-    @calculatedFrom(""1"")
-    repeat uint8 calculatedFrom `u8 x,`,
-    char[] packetx,// packet A { u8 x, }
-    @calculatedFrom(""abc"")
-    Pad @lengthOf(msg_type) `line1
-    line2`,
-    @rightPad(' ')
-    tag `" ++ [233]%N ++ runes_of_ascii "`,
-    @tag(10)
-    u8x @calculatedFrom(""CRC32""),
-    match metadata as msg_type {
-        [""\n"", 0123456789] : options1,
-        ""\n"" : float,
-    },
-}
-
-packet MetaDataX {
-    string string_ `doc`,
-    @rightPad('0')
-    zchar[00] zchar `a\`,
-}
-
+Eval vm_compute in ("<<<M1499>>>" ++ check (runes_of_ascii "// top
 options {
-    leftPad = 0
-    float = 4294967296;
-}// `tick` ""quote"" 'q'
+    // c1
+    LittleEndian = true;// c5
+    StringPrefixLenType = u16;
+    // c9
+    ArrayPrefixLenType = u8;// c13
+    FixedStringPadChar = ' ';// c17
+}// c18a
 
-root packet body {
-    @calculatedFrom(""1"")
-    @lengthOf(int)
-    match float as Z9_ {
-        // packet A { u8 x, }
-        // trailing space 
-        42 : x,
-        ""packet"" : matchKey,
-        """ ++ [28040; 24687]%N ++ runes_of_ascii """ : o,
-        255 : float,
-    },
-    @tag(0123456789)
-    match calculatedFrom as trueish {
-        [""packet"", ""`tick`"", """ ++ [233]%N ++ runes_of_ascii "t" ++ [233]%N ++ runes_of_ascii """] : MetaDataX,
-        4294967296 : trueish,
-        3 : i64_,
-        0123456789 : f32a,
-        [
-            7, 10, ""CRC32"", ""x y"", ""\n"",
-            ""CRC32"", ""`tick`""
-        ] : body,
-    },
-    char[1] Foo,
-    @rightPad(' ')
-    @calculatedFrom(""a	b"")
-    repeat string_ {
-        repeat Logon,
-        Z9_ i8i8,
-        match Z9_ as A {
-            [42] : Logon,
-            [
-                ""CRC32"", 1, ""a\""b"", 4294967296, 0,
-                ""\" ++ [233]%N ++ runes_of_ascii """
-            ] : roots,
-            ""a\""b"" : MetaDataX,
-            255 : _x,
-            65535 : rootA,
-        },
-        match _x as Foo {
-            [255, """ ++ [28040; 24687]%N ++ runes_of_ascii """, ""CRC32"", """ ++ [233]%N ++ runes_of_ascii "t" ++ [233]%N ++ runes_of_ascii """, ""abc""] : len,
-            ""a\\"" : Pad,
-            0 : falsey,
-            3 : u128,
-        },// a // b
-    },
-    repeat options1 int `{ , }`,
-}")).
-Eval vm_compute in ("<<<M1918>>>" ++ check (runes_of_ascii "options {
-    BodyLength = 3;// " ++ [128512]%N ++ runes_of_ascii " emoji
-    T = ""packet"";
-    // c
-    // trailing space 
-    crc = true;
-    falsey = '\x00';
-}
-
-root packet A {
-    @leftPad('0')
-    char[65535] Header `" ++ [233]%N ++ runes_of_ascii "`,
-    @rightPad('0')
-    //
-    a1 @lengthOf(msg_type),
-    @lengthOf(rootA)
-    match _x as stringy {
-        ""CRC32"" : chars,
-        3 : float,
-        255 : asx,
-        10 : tag,
-        //
-    },
-    @calculatedFrom(""" ++ [128512]%N ++ runes_of_ascii """)
-    u32 u8x `crlf
-    line`,
-    repeat char[] asx `a\`,
-    @rightPad('0')
-    match f32a as Packet {
-        [
-            255, ""CRC32"", 007, ""1"", ""packet"",
-            00, 4294967296
-        ] : calculatedFrom,
-        ""packet"" : falsey,
-        ""a\""b"" : body,
-        7 : Packet,
-        // " ++ [128512]%N ++ runes_of_ascii " emoji
-        0123456789 : i64_,
-        // a // b
-        [4294967296, 0123456789] : options1,
-    },
-    crc @lengthOf(Foo),
-    @calculatedFrom(""{,}"")
-    @lengthOf(metadata)
-    @lengthOf(i8i8)
-    int64 options1 @calculatedFrom(""CRC32"") `line1
-    line2`,// @lengthOf(
-}
-
-packet a1 {
-    match lengthOf as x_y_z {
-        ""it's"" : matchKey,
-        10 : Packet,
-        [""abc""] : A,
-        10 : metadata,
-    },
-}
-
-MetaData body {
-    char string_,
-    char[] x,
-    len Pad,
-    string leftPad,
-}// trailing space ")).
-Eval vm_compute in ("<<<M1343>>>" ++ check (runes_of_ascii "options
-{
-    FixedStringPadFromLeft= true;FixedStringPadChar
-=
-    '0'  ;
-}
-    packet
-
-Leg{ InPrice0{
-	repeat
-string
-
-    clOrdID ,
-    int16
-	msgKind ,
-zchar[5
-]
-
-    Px,
-} 
-,
-i16  f1
-
-, repeat
-
-    f64  Side2
-,string
-	Acct,
-
-}
-    packet  Cancel {
-
-zchar[
-
-4
-
-]
-clOrdID,	string 
-seqNo  ,
-
-    Leg , 
-@leftPad
-    (
-    '0' 
-)  char[
-    11
-    ]
-    OrderId	, 
-} 
-packet
-Quote{
-    repeat
-    char[4]
-
-    sym,
-	f64 
-OrderId ,
-    repeat
-
-    Leg
-
-    ,
-
-repeat i64 
-f1, int16 
-Note ,  zchar[
-3] 
-count  ,  } 
-root
-packet
-Ack{	@leftPad(
-    ' ' 
-)char[
-
-    10
-]sym,
-    InPx60
-	{
-Cancel	,
-repeat
-char[
-1
-    ]  f1 ,
-
-string
-	Tail
-
-    , repeat 
-InNote55 {
-int8
-
-count, f64 f1 ,
-    repeat
-	Cancel,	} ,char[]tag7	,  repeat
-	string	msgKind
-
-    , }
-
-    ,
-
-    u8
-lastPx
-	,
-	match lastPx
-as  Body
-	{152 :Quote ,
-    173
-
-:  Cancel
-    , 4
-: 
-Leg ,
-
-}
-
-,u16 Ref @calculatedFrom(
-    ""CRC32""
-)
-	,
-	}
-")).
-Eval vm_compute in ("<<<M237>>>" ++ check (runes_of_ascii "root
-    packet
-    asx { // `tick` ""quote"" 'q'
-f32a	,
-@calculatedFrom(
-""abc"") zchar[ 65535 ]	metadata `
-` , @calculatedFrom(// " ++ [128512]%N ++ runes_of_ascii " emoji
-""CRC32"" // `tick` ""quote"" 'q'
-) Header `doc`
-    // @lengthOf(
-    , match
-f32a as
-msg_type
-// @lengthOf(
-//x
-{ [ ""\n"" ] /// triple
-:
-charz// @lengthOf(
-0123456789 :
-pack
-    // `tick` ""quote"" 'q'
-    ,//x
-[ ""packet"" , """",
-    // @lengthOf(
-    ""`tick`"" ,
-    ""CRC32"" , ""\n"" ,
-// `tick` ""quote"" 'q'
-// trailing space 
-""it's""//	t
-,
-""it's"", //
-4294967296 ]
-:
-charz
-42
-    : leftPad , [
-255 ,	7 , ""packet"" , // trailing space 
-""{,}""
-    , ""\" ++ [233]%N ++ runes_of_ascii """ ,""1""
-    ,	""1""  ] : msg_type
-,
-    [ """ ++ [128512]%N ++ runes_of_ascii """
-    ]:  i64_ } ,  }packet body { } root packet i64_
-    { uint16  Header @calculatedFrom(
-""" ++ [233]%N ++ runes_of_ascii "t" ++ [233]%N ++ runes_of_ascii """ )
-    ``
-    ,float64 string_@calculatedFrom( // a // b
-""`tick`"") , repeat zchar[ // @lengthOf(
-1] packetx`it's` ,
-} //	t")).
-Eval vm_compute in ("<<<M1853>>>" ++ check (runes_of_ascii "MetaData x {
-    len crc,
-    float asx,
-    i32 uint8x `line1
-        line2`,
-    u16 tag `it's`,
-    As string_,
-}
-
-packet metadata {
-    @lengthOf(zchar)
-    // c
-    i64_ @calculatedFrom(""\" ++ [233]%N ++ runes_of_ascii """),//x
-    @leftPad('\x00')
-    zchar[10] zchar,
-    lengthOf string_,
-    int @lengthOf(pack),
-    zchar[00] Foo,
-    @lengthOf(packetx)
-    @leftPad('\x00')
-    @calculatedFrom(""x y"")
-    uint16 len @calculatedFrom("""") `two words`,
-    int8 metadata @lengthOf(Foo) `two words`,// @lengthOf(
-}
-
-options {
-}
-
-packet pack {
-    // `tick` ""quote"" 'q'
-    //
-    f64 o,
-    T BodyLength,
-    repeat uint8 chars `" ++ [233]%N ++ runes_of_ascii "`,
-    repeat Logon u,
-    @tag(0123456789)
-    char[] repeatCount @lengthOf(_x) `
-        `,//
-    @tag(7)
-    repeatCount @calculatedFrom(""packet"") `{ , }`,
-}")).
-Eval vm_compute in ("<<<M344>>>" ++ check (runes_of_ascii "options // a // b
-{	}
-    packet i8i8 { @tag(
-3 ) x
-@calculatedFrom(
-""it's""	) , @lengthOf( f32a ) match
-rootA
-as uint8x // @lengthOf(
-{ 0 : string_ 42 : Packet } , @leftPad
-(
-    '\x00'
-) i64_ packetx `u8 x,` ,
-    @calculatedFrom(""x y"" ) matchKey {len  ,
-    }  ,
-@lengthOf(  matchKey
-)
-    @calculatedFrom(// `tick` ""quote"" 'q'
-""abc"" ) @lengthOf( x_y_z )
-    /// triple
-    repeat metadata `line1
-line2` ,lengthOf repeatCount , /// triple
-int32
-// " ++ [27880; 37322]%N ++ runes_of_ascii "
-//	t
-roots @calculatedFrom( ""`tick`"")
-`" ++ [233]%N ++ runes_of_ascii "` , zchar[
-1	]	Packet	@calculatedFrom(	""// no comment"" ) ,} packet
-    options1
-{ @lengthOf(
-    uint8x ) A @calculatedFrom( ""it's""
-    )
-`doc`, } root packet crc
-{char[	65535	]chars
-,}
-")).
-Eval vm_compute in ("<<<M1386>>>" ++ check (runes_of_ascii "// top
-packet
-    // c0
-Sub // c1
-{ // c2
-u8 // c3
-a , // c5a
-  // c5b
-@calculatedFrom( ""CRC16"" )
-    // c8
-i32 // c9a
-  // c9b
-SubSum ,
-    // c11
-} // c12a
-  // c12b
-root
-    // c13
-packet Frame
-    // c15
-{ u16 MsgType // c18
-,
-    // c19
-u16 // c20
-BodyLen
-    // c21
-@lengthOf( // c22a
-  // c22b
-Body // c23a
-  // c23b
-) // c24a
-  // c24b
-,
+// c18b
+packet Ack {
+    @leftPad(' ')
     // c25
-Sub // c26a
-  // c26b
-Body
-    // c27
-, // c28a
-  // c28b
-string
-    // c29
-note
-    // c30
-, @calculatedFrom( // c32a
-  // c32b
-""CRC16"" // c33a
-  // c33b
-) // c34a
-  // c34b
-i32 Checksum // c36a
-  // c36b
-,
-    // c37
-u8 // c38
-tail
-    // c39
-, // c40
-} // c41
+    char[5] lastPx,
+    zchar[4] count,// c35a
+    // c35b
+    repeat InVenue30 {
+        char[9] Side2,
+        char[12] venue,// c48
+    },
+    // c50
+}// c51a
+
+// c51b
+packet Order {
+    // c54a
+    // c54b
+    int16 Note,// c57a
+    // c57b
+    repeat InAcct28 {
+        // c60
+        InSym3 {
+            // c62
+            Ack,
+            // c64
+            char[4] lastPx,
+            char[1] venue,// c74
+            f32 Ref,// c77
+        },
+        repeat InTag729 {
+            // c82
+            char[3] Side2,
+            // c87
+            uint64 Acct,// c90a
+            // c90b
+            char[] price,
+            zchar[9] Note,
+            // c98
+            zchar[9] venue,
+            // c103
+        },
+        char[] count,// c108a
+        // c108b
+        Ack,
+        // c110
+        char[] Px,// c113
+    },// c115a
+    // c115b
+    u8 f1,
+    // c118
+    Ack,// c120a
+    // c120b
+}// c121a
+
+// c121b
+packet Fill {
+    zchar[7] x,// c129a
+    // c129b
+    Order,// c131a
+    // c131b
+    @leftPad(' ')
+    char[9] venue,
+    // c140
+    string count,
+    char[] Flags,// c146a
+    // c146b
+}// c147
+
+packet Logon {
+    // c150
+}// c151a
+
+// c151b
+packet Reject {
+    Order,
+    // c156
+    char[] sym,// c159a
+    // c159b
+}// c160
+
+root packet Quote {
+    string price,
+    // c167
+    i64 Flags,// c170a
+    // c170b
+    repeat Fill,// c173
+    zchar[9] x,// c178
+    f32 lastPx,// c181a
+    // c181b
+    repeat Ack,
+    // c184
+}
+// c185")).
+Eval vm_compute in ("<<<M264>>>" ++ check (runes_of_ascii "root packet u8x
+    {
+    // trailing space 
+    repeat u64 Pad
+    , i64_ @calculatedFrom(
+""x y"" /// triple
+) `100% of %d`
+// @lengthOf(
+// a // b
+, @calculatedFrom(
+""a	b"" ) @lengthOf( Header ) @lengthOf( zchar ) i32
+    A @lengthOf( falsey)//x
+,	repeat zchar[// a // b
+10 ]
+f32a  `
+` ,  repeat
+    f64
+rootA
+    `line1
+line2`
+, // packet A { u8 x, }
+match string_
+    as
+    o { 65535 : // a // b
+options1 ,
+// a // b
+// " ++ [128512]%N ++ runes_of_ascii " emoji
+""// no comment"": packetx ""\" ++ [233]%N ++ runes_of_ascii """
+// c
+//x
+: lengthOf, 65535 :
+BodyLength ,
+""packet"":
+a1
+, }
+    , @tag(
+4294967296) @tag( 7
+    )@rightPad (	'\x00'
+    )
+    repeat uint64 i8i8 , char[
+    42 ]string_
+`// not a comment` , } MetaData pack
+    {x o
+    `two words` , x As,uint64 BodyLength
+    `// not a comment`,x a1`` , T
+int
+`it's` ,
+} MetaData falsey
+// a // b
+// 50% %s
+{ Header BodyLength `` , }root packet trueish {i16 // @lengthOf(
+trueish	@calculatedFrom( ""`tick`"")`line1
+line2`
+, f64 As ,string T	@lengthOf(
+    pack )	`100% of %d` , @lengthOf(
+    matchKey )repeat // " ++ [128512]%N ++ runes_of_ascii " emoji
+char[ 00 ]
+    lengthOf
+// packet A { u8 x, }
+// c
+`line1
+line2` , zchar[ 3 ]_x @calculatedFrom(
+""`tick`"" )
+    // " ++ [128512]%N ++ runes_of_ascii " emoji
+    ,
+// " ++ [27880; 37322]%N ++ runes_of_ascii "
+// trailing space 
+@tag( 00) //	t
+zchar[4294967296
+]  msg_type , repeat body,
+Logon , @tag( 1
+    ) @calculatedFrom( ""packet"")
+zchar[ 3 ] Z9_ , }
 ")).
-Eval vm_compute in ("<<<M1700>>>" ++ check (runes_of_ascii "options {
-    LittleEndian = false;
+Eval vm_compute in ("<<<M103>>>" ++ check (runes_of_ascii "packet x { }
+options
+/// triple
+// c
+{ Packet =string Packet =
+    // a // b
+    ' 'zchar = false ;
+matchKey
+    =
+    false }	packet
+f32a
+// packet A { u8 x, }
+// " ++ [128512]%N ++ runes_of_ascii " emoji
+{ int64 options1@calculatedFrom(
+    ""packet"" ) `// not a comment` ,
+Z9_ { charz	{ match	BodyLength	as trueish{ ""\" ++ [233]%N ++ runes_of_ascii """ :
+    charz , 65535: roots,
+    [
+4294967296 //x
+, ""a\""b""
+    // @lengthOf(
+    , ""abc"" ]:
+    f32a ,	""\" ++ [233]%N ++ runes_of_ascii """	:
+//x
+// " ++ [128512]%N ++ runes_of_ascii " emoji
+int
+    // packet A { u8 x, }
+    ""x y"" //
+: u8x }, repeat int8 u , repeat	_x	{ msg_type `100% of %d` ,
+    metadata
+`crlf
+line`  ,
+f32
+roots  , char[]f32a @lengthOf( Pad )
+,// c
+}
+,
+} ,
+    },match
+    T
+as  calculatedFrom {
+[0,""" ++ [128512]%N ++ runes_of_ascii """ ]
+:// @lengthOf(
+Pad// packet A { u8 x, }
+[""""  , ""x y""
+    , """ ++ [233]%N ++ runes_of_ascii "t" ++ [233]%N ++ runes_of_ascii """ , ""a\""b""
+    , 4294967296 , """ ++ [28040; 24687]%N ++ runes_of_ascii """  ]:o
+[ 42
+    ]//
+: float , }
+,  match zchar as _x	{
+    ""`tick`""
+    // " ++ [27880; 37322]%N ++ runes_of_ascii "
+    : packetx , },
+    // 50% %s
+    repeat
+// c
+// `tick` ""quote"" 'q'
+As
+    // " ++ [27880; 37322]%N ++ runes_of_ascii "
+    { int @lengthOf( msg_type	)
+    , i64 roots`line1
+line2`
+    // `tick` ""quote"" 'q'
+    , // c
+repeat u16 Packet `" ++ [233]%N ++ runes_of_ascii "`
+, f64 charz	, } , int32	i8i8 `say ""hi""` ,
+}")).
+Eval vm_compute in ("<<<M92>>>" ++ check (runes_of_ascii "packet As
+{i32 x_y_z
+, match
+    /// triple
+    As  as leftPad{
+    ""// no comment"" :// 50% %s
+repeatCount ,// 50% %s
+[ 3,
+    3
+    ,
+    """ ++ [233]%N ++ runes_of_ascii "t" ++ [233]%N ++ runes_of_ascii """ ]: charz
+,
+""// no comment"" : f32a 10 :u,} , uint64 len
+    //
+    , x
+    , @lengthOf(float /// triple
+)	repeat i8i8 { repeat pack,
+    float32
+Packet,
+repeat T Z9_ ,// trailing space 
+i8i8 ,
+}
+, char
+rootA
+,
+    // c
+    float , _x // " ++ [128512]%N ++ runes_of_ascii " emoji
+@calculatedFrom( ""x y"") , }
+MetaData//
+Z9_	{u8x //x
+BodyLength, uint32
+x //	t
+, a1 Header ,  calculatedFrom Pad`a\` //
+, char  falsey`it's`, rootA Foo ,
+    } root packet repeatCount {@leftPad  ( ' ')
+zchar `{ , }` ,
+@tag(42 )
+match tag as Logon { 007 : float ,
+[1
+    ] : Packet ,  [
+// `tick` ""quote"" 'q'
+// packet A { u8 x, }
+0 ] :
+    repeatCount
+, [  ""a	b""	, 10 ,""packet""	] : o
+    },
+    f32a`100% of %d` ,// @lengthOf(
+@calculatedFrom(// c
+""\n"" ) @lengthOf(
+    body) repeat
+    char[] calculatedFrom ``// " ++ [128512]%N ++ runes_of_ascii " emoji
+,	pack,
+}
+")).
+Eval vm_compute in ("<<<M1395>>>" ++ check (runes_of_ascii "// top
+options // c0
+{
+    // c1
+LittleEndian // c2a
+  // c2b
+= true // c4a
+  // c4b
+; // c5a
+  // c5b
+} packet Sub { u8
+    // c10
+a
+    // c11
+, @calculatedFrom( ""CRC16"" // c14a
+  // c14b
+)
+    // c15
+uint64
+    // c16
+SubSum , // c18
+} root // c20
+packet
+    // c21
+Frame
+    // c22
+{ // c23
+u16 MsgType // c25
+, // c26a
+  // c26b
+u16 // c27a
+  // c27b
+BodyLen
+    // c28
+@lengthOf(
+    // c29
+Body // c30a
+  // c30b
+)
+    // c31
+,
+    // c32
+Sub // c33
+Body // c34a
+  // c34b
+, // c35a
+  // c35b
+string // c36a
+  // c36b
+note // c37a
+  // c37b
+, // c38a
+  // c38b
+@calculatedFrom( // c39a
+  // c39b
+""CRC16"" // c40a
+  // c40b
+) // c41
+uint64 // c42a
+  // c42b
+Checksum // c43a
+  // c43b
+,
+    // c44
+u8 // c45a
+  // c45b
+tail // c46a
+  // c46b
+, // c47a
+  // c47b
+}
+    // c48
+")).
+Eval vm_compute in ("<<<M1388>>>" ++ check (runes_of_ascii "options {
+    LittleEndian = true;
+    StringPrefixLenType = u32;
     ArrayPrefixLenType = u8;
+}
+packet Heartbeat {
+    string msgKind,
+}
+packet Logon {
+    repeat Heartbeat,
+    repeat string Px,
+    uint8 Tail,
+    char[] f1,
+}
+packet Cancel {
+    zchar[4] OrderId,
+    Logon,
+    repeat InMsgkind98 {
+        repeat u8 tag7,
+        repeat InFlags69 {
+            char[] Note,
+            char[] lastPx,
+            char[11] Ref,
+            Logon,
+        },
+        repeat Heartbeat,
+    },
+    zchar[7] Px,
+    u32 seqNo,
+}
+root packet Reject {
+    i16 tag7,
+    char[3] Qty,
+    InRef42 {
+        u8 pad0,
+    },
+    uint32 f1,
+    zchar[7] OrderId,
+    zchar[8] x,
+}
+")).
+Eval vm_compute in ("<<<M149>>>" ++ check (runes_of_ascii "options { stringy  =zchar[
+0123456789] }
+    MetaData// trailing space 
+charz{ zchar[
+42 ] calculatedFrom	,
+    // `tick` ""quote"" 'q'
+    char[ 65535 ] // " ++ [27880; 37322]%N ++ runes_of_ascii "
+trueish
+    , float64 // c
+roots
+    `doc`
+,}
+    packet// c
+calculatedFrom // a // b
+{ @calculatedFrom( """ ++ [128512]%N ++ runes_of_ascii """ )string crc `crlf
+line` , MetaDataX { Packet
+@lengthOf( // c
+packetx )`{ , }`, // trailing space 
+repeat trueish As
+    , } ,int64 T,// `tick` ""quote"" 'q'
+match uint8x// trailing space 
+as i64_ {
+00 :
+_x ,
+    65535 :Z9_, ""1"" : u8x
+// c
+// " ++ [27880; 37322]%N ++ runes_of_ascii "
+, 007 : Z9_	, /// triple
+255
+:matchKey ""1"": crc , } ,// " ++ [128512]%N ++ runes_of_ascii " emoji
+} // @lengthOf(")).
+Eval vm_compute in ("<<<M316>>>" ++ check (runes_of_ascii "options
+{ metadata= 10 ;  x= u16// `tick` ""quote"" 'q'
+; matchKey
+    =0
+;	}
+packet MetaDataX	{ i8 u8x `a\`//x
+, u64// 50% %s
+matchKey
+@lengthOf( T ) ,
+    // " ++ [128512]%N ++ runes_of_ascii " emoji
+    char[ 1 // a // b
+]
+Z9_ ,
+    zchar[
+    7	] MetaDataX @lengthOf(calculatedFrom)	,
+    // @lengthOf(
+    @tag( 10 )
+    repeatCount,string MetaDataX
+    // trailing space 
+    @calculatedFrom(/// triple
+""CRC32""
+) `tab	here`
+// " ++ [27880; 37322]%N ++ runes_of_ascii "
+/// triple
+, u8
+A @lengthOf( charz
+) , }
+packet
+    // packet A { u8 x, }
+    Pad{@leftPad (  ) repeat
+    body
+charz , }
+//x
+")).
+Eval vm_compute in ("<<<M2>>>" ++ check (runes_of_ascii "packet Logon { @lengthOf( leftPad )repeat calculatedFrom { match
+x_y_z
+as Z9_ {
+7 : MetaDataX [
+    /// triple
+    ""a\""b"" , 42 ]:uint8x, 00 :
+// a // b
+//	t
+stringy , // packet A { u8 x, }
+0
+    : leftPad,
+65535
+    : tag ,
+    [ 4294967296 , ""packet""// `tick` ""quote"" 'q'
+, 1,0123456789 , 1
+,""{,}"" , 42
+    ,""abc""] :
+uint8x ,
+}
+    , string
+    rootA `two words` // " ++ [27880; 37322]%N ++ runes_of_ascii "
+,  uint32 A ,char[0 ] T , }
+    ,  @tag(007 )
+    repeat zchar[ 7] f32a//
+`
+` , @lengthOf(T)float32 stringy `two words`, }")).
+Eval vm_compute in ("<<<M58>>>" ++ check (runes_of_ascii "packet o { zchar[ 7 ] /// triple
+f32a@calculatedFrom( ""a\""b"")	, @lengthOf( pack
+)
+    options1 ,@calculatedFrom(""abc""
+)
+    Header , @lengthOf( Logon )zchar[4294967296
+    ] asx // packet A { u8 x, }
+@lengthOf(
+// a // b
+// packet A { u8 x, }
+u )
+`100% of %d`	, @leftPad (' ' // trailing space 
+)	@calculatedFrom( ""`tick`"" )
+uint16 x_y_z`doc` , @tag( 00 )zchar[ //	t
+1 ] // c
+u,@calculatedFrom(""a\""b"" ) //
+u8x uint8x,
+char[1 ]
+metadata , }
+")).
+Eval vm_compute in ("<<<M1387>>>" ++ check (runes_of_ascii "options {
+    LittleEndian = false;
+    StringPrefixLenType = u16;
     FixedStringPadFromLeft = true;
     FixedStringPadChar = '0';
 }
-
-packet Heartbeat {
-    string lastPx,
-    uint8 Qty,
-    i64 Acct,
-    char[4] Ref,
-}
-
 packet Fill {
-    uint8 Ref,
-    Heartbeat,
-    f32 OrderId,
-    repeat f32 x,
 }
-
 root packet Order {
-    zchar[2] OrderId,
-    zchar[2] Acct,
-    zchar[1] Note,
-    zchar[9] Qty,
-    string price,
-    string tag7,
-    u32 x,
-    match x as Body {
-        123 : Fill,
-        112 : Heartbeat,
+    repeat Fill,
+    char[] clOrdID,
+    @rightPad('\x00') char[4] lastPx,
+    char[] OrderId,
+    int8 tag7,
+    u8 f1,
+    u16 count @lengthOf(Body),
+    match f1 as Body {
+        [159, 49] : Fill,
     },
-    u32 seqNo @calculatedFrom(""CRC32""),
-}")).
-Eval vm_compute in ("<<<M210>>>" ++ check (runes_of_ascii "MetaData tag {
-//
-//
-char[// a // b
-3 ] // a // b
-msg_type
-    // c
-    , char[7 ] options1
-,
-    // trailing space 
-    float crc
-,calculatedFrom pack ,int64 u  `a\`,}
-packet leftPad{char[
-    1
-]
-    /// triple
-    zchar
-,
-    //
-    } packet crc { // c
-@lengthOf( packetx	) @lengthOf( asx)
-@lengthOf( packetx ) calculatedFrom {	f32 packetx	``
-// packet A { u8 x, }
-//x
-, },
-} options { Z9_
-= ""\" ++ [233]%N ++ runes_of_ascii """
-    // a // b
-    float = ' ' ; packetx = ""x y""
-    calculatedFrom  = int16
-    ;
-}")).
-Eval vm_compute in ("<<<M1929>>>" ++ check (runes_of_ascii "options {
-    LittleEndian = true;
-    StringPrefixLenType = u64;
-    ArrayPrefixLenType = u16;
-    FixedStringPadFromLeft = false;
-    FixedStringPadChar = ' ';
+    u16 Tail @calculatedFrom(""CR\
+C32""),
 }
-
-packet Logon {
-    zchar[5] Side2,
-}
-
-root packet Logout {
-    repeat i64 Tail,
-    Logon,
-    repeat i16 OrderId,
-    char[] venue,
-    uint64 x,
-    repeat i16 count,
-    u8 Flags,
-    match Flags as Body {
-        25 : Logon,
-    },
-    u16 Qty @calculatedFrom(""CR\
-        C32""),
-}")).
-Eval vm_compute in ("<<<M1690>>>" ++ check (runes_of_ascii "MetaData Packet {
-    // c2
-}
-
-packet charz {
-    // c6a
-    // c6b
-    Foo asx `it's`,
-    // c10
-    @lengthOf(T)
-    // c13
-    @calculatedFrom("""")
-    // c16
-    @calculatedFrom(""x y"")
-    // c19a
-    // c19b
-    zchar[007] repeatCount @lengthOf(int) `a\`,// c28a
-    // c28b
-    i8 string_,// c31
-    repeat options1 Pad,
-}// c36a
-
-// c36b
-root packet Packet {
-    int8 float `doc`,// c44
-}
-// c45")).
-Eval vm_compute in ("<<<M372>>>" ++ check (runes_of_ascii "// @lengthOf(
-MetaData leftPad { string	options1`say ""hi""` ,
-    //x
-    int16 metadata`" ++ [233]%N ++ runes_of_ascii "`,f32 i64_
-//	t
-// c
-, }  packet
-trueish { // c
-MetaDataX roots ,_x
-    a1 , match
-packetx as charz { 0
-: // c
-f32a ,
-} //
-, repeat body Logon , }	options { repeatCount=
-    int8
-charz // `tick` ""quote"" 'q'
-=	char[];  msg_type =""it's""	u
-=
-    007 Z9_
-    = uint32
-    //
-    }")).
-Eval vm_compute in ("<<<M127>>>" ++ check (runes_of_ascii "packet a1{ @leftPad ( ) float
-@lengthOf(
-uint8x ) , }
-packet Logon {
-char Logon
-@calculatedFrom( ""a\\"" )
-    ,T stringy ,
-//
-// c
-repeat uint8 stringy `two words` , } MetaData charz{ u
-    tag
-    `
-`
-, a1 falsey ,//x
-Z9_
-matchKey , f64 lengthOf	`a\` // @lengthOf(
-,
-    f32a roots
-    ``
-,float64
-    x_y_z // @lengthOf(
-, }
 ")).
-Eval vm_compute in ("<<<M1268>>>" ++ check (runes_of_ascii "// top
-packet
-    // c0
-B
-    // c1
-{ // c2
-u8
-    // c3
-a // c4
-, string // c6
-s
-    // c7
-, } root // c10
-packet
-    // c11
-P // c12a
-  // c12b
-{
-    // c13
-u16
-    // c14
-L // c15a
-  // c15b
-@lengthOf( B
-    // c17
-)
-    // c18
+Eval vm_compute in ("<<<M226>>>" ++ check (runes_of_ascii "packet Foo  {
+    char
+pack@calculatedFrom(""CRC32"") `crlf
+line` // " ++ [128512]%N ++ runes_of_ascii " emoji
 ,
-    // c19
-B
-    // c20
-, u8 // c22a
-  // c22b
-t
-    // c23
-, // c24
-} ")).
-Eval vm_compute in ("<<<M1960>>>" ++ check (runes_of_ascii "packet MDSnapshotZZ {
-u8
-
-a	, }  packet
-
-OrderACK
-	{ u16 b ,
-
-    }
-
-packet	HTTPServerInfo
-{ string  s
-    , 
-}
-
-    root
-	packet  FIXMsg {u8
-
-    KType
-,
-	MDSnapshotZZ  ,
-
-repeat OrderACK
-,match	KType
-as
-    Body
-    {	1 : HTTPServerInfo 
-,
-2:	OrderACK,}	, }
-")).
-Eval vm_compute in ("<<<M97>>>" ++ check (runes_of_ascii "packet
-i8i8 { repeat char[	00 ] Pad
-    `a\` ,
-@leftPad
-    (
-'\x00') string	a1@lengthOf(tag )``, float64
-    u128 @calculatedFrom( ""1""
-)  ,	@lengthOf( x
+@leftPad (
     )
-    u128 @lengthOf( tag )
-`" ++ [28040; 24687; 31867; 22411]%N ++ runes_of_ascii "` , int64 u ,
-A//x
-T
-    `say ""hi""`
-, }
-")).
-Eval vm_compute in ("<<<M1326>>>" ++ check (runes_of_ascii "packet Logon {
-    string user,
-}
-root packet Frame {
-    u8 K,
-    match K as Body {
-        1 : Logon,
-        2 : Logout,
-    },
-    Tail,
-}
-packet Logout {
-    u16 reason,
-}
-packet Tail {
-    u32 crc,
-}
-")).
-Eval vm_compute in ("<<<M186>>>" ++ check (runes_of_ascii "root packet packetx	{	char[ 1 ]chars @calculatedFrom(
-""packet"" ) `say ""hi""` ,} options
-    // trailing space 
-    { asx
-    // a // b
-    = 65535 u = float64 repeatCount  =""\" ++ [233]%N ++ runes_of_ascii """}
-")).
-Eval vm_compute in ("<<<M1196>>>" ++ check (runes_of_ascii "// top
-packet // c0a
-  // c0b
-body
-    // c1
-{ i32 // c3
-f32a
-    // c4
-`{ , }` // c5a
-  // c5b
-, }
-    // c7
-options // c8a
-  // c8b
-{ // c9
-} // c10a
-  // c10b
-")).
-Eval vm_compute in ("<<<M1401>>>" ++ check (runes_of_ascii "
-packet A
-{
-match
-	k
-	as
-
-    n
-
-    {[
-	""a""
-	,
-22
-    ,
-    ""c c"" ,  4 
-,
-""e""
-
-    ,
-    66
-,
-
-    ""g""  ,
-
-8
-
-,
-""i"",  10  ]
-
-:
-B 2	:
-C } ,
-	}")).
-Eval vm_compute in ("<<<M456>>>" ++ check (runes_of_ascii "packet uint8x
-{ match pack
-    as msg_type	{
-    0123456789 :	float
-}
-,
-} } packet //	t
-a1
-    { } options {packetx
-    = '\x00'	; u128= ""a	b""  ; }
-")).
-Eval vm_compute in ("<<<M393>>>" ++ check (runes_of_ascii "uint8x packet
-{ match pack
-    as msg_type	{
-    0123456789 :	float
-}
-,
-} packet //	t
-a1
-    { } options {packetx
-    = '\x00'	; u128= ""a	b""  ; }
-")).
-Eval vm_compute in ("<<<M673>>>" ++ check (runes_of_ascii "// @lengthOf(
-packet i8i8 { u128 o , }
-options { MetaDataX = true;
-    BodyLength =""packet"" x_y_z float64 007
-crc //x
-= ""abc"" ;
-    msg_type =
-i16 }")).
-Eval vm_compute in ("<<<M408>>>" ++ check (runes_of_ascii "packet uint8x
-{ i8 pack
-    as msg_type	{
-    0123456789 :	float
-}
-,
-} packet //	t
-a1
-    { } options {packetx
-    = '\x00'	; u128= ""a	b""  ; }
-")).
-Eval vm_compute in ("<<<M391>>>" ++ check (runes_of_ascii " uint8x
-{ match pack
-    as msg_type	{
-    0123456789 :	float
-}
-,
-} packet //	t
-a1
-    { } options {packetx
-    = '\x00'	; u128= ""a	b""  ; }
-")).
-Eval vm_compute in ("<<<M1491>>>" ++ check (runes_of_ascii "
-MetaData
-leftPad{
-
-    chars 
-MetaDataX,}packet
-repeatCount
-
-{ char[
-255
-    ]	uint8x `" ++ [233]%N ++ runes_of_ascii "`
-,
-    } 
-MetaData	pack
-    {
-As Foo 
-, }  // c
-")).
-Eval vm_compute in ("<<<M329>>>" ++ check (runes_of_ascii "  packet calculatedFrom
-{ uint8x {body `line1
-line2`
-, string crc
-@lengthOf(uint8x// " ++ [128512]%N ++ runes_of_ascii " emoji
-) , char[]As@lengthOf(	Pad )
-    , } , }
-")).
-Eval vm_compute in ("<<<M1802>>>" ++ check (runes_of_ascii "// top
-root packet P {
-    // c3
-    u8 s_u8,// c6
-    repeat u8 r_u8,
-    // c10
-    u16 b_len,// c13a
-    // c13b
-}// c14a
-// c14b")).
-Eval vm_compute in ("<<<M937>>>" ++ check (runes_of_ascii "packet A {
-    u16 len @lengthOf(body) `a
-    b
-  c`,
-    u32 crc @calculatedFrom(""CRC32"") `a
-    b
-  c`,
-    string body,
-}")).
-Eval vm_compute in ("<<<M1144>>>" ++ check (runes_of_ascii "MetaData
-// c
-leftPad { chars MetaDataX , } packet repeatCount { char[ 255 ] uint8x `" ++ [233]%N ++ runes_of_ascii "` , } MetaData pack { As Foo , }")).
-Eval vm_compute in ("<<<M1176>>>" ++ check (runes_of_ascii "MetaData leftPad { chars MetaDataX , } packet repeatCount { char[ 255 ] uint8x `" ++ [233]%N ++ runes_of_ascii "` , }
-// c
-MetaData pack { As Foo , }")).
-Eval vm_compute in ("<<<M1579>>>" ++ check (runes_of_ascii "
-
-  packet
-A
-
-{match
-k as
-
-    n 
-{
-
-    [ 1
-,
-
-    ""bb""	,
-
-007 , ""d"" ,
-
-5,
-""f""
-]  : B
-    2 :
-	C }
-,  }
-")).
-Eval vm_compute in ("<<<M902>>>" ++ check (runes_of_ascii "packet A {
-  match k as n {
-    [""a"", ""bb"", 007, ""d"", ""e"", 66, ""g"", ""h"", 9, ""j"", ""k""] : B
-    2 : C
-  },
-}")).
-Eval vm_compute in ("<<<M913>>>" ++ check (runes_of_ascii "packet A {
-  match k as n {
-    [1, 22, ""c c"", 4, 5, ""f"", 7, 8, ""i"", 10, 11, ""l""] : B
-    2 : C
-  },
-}")).
-Eval vm_compute in ("<<<M900>>>" ++ check (runes_of_ascii "packet A {
-  match k as n {
-    [1, 22, ""c c"", 4, 5, ""f"", 7, 8, ""i"", 10, 11] : B
-    2 : C
-  },
-}")).
-Eval vm_compute in ("<<<M558>>>" ++ check (runes_of_ascii "
-packet
-    asx asx {match u128 as lengthOf
-{
-//	t
-// `tick` ""quote"" 'q'
-255 : x ,
-    } ,	}")).
-Eval vm_compute in ("<<<M623>>>" ++ check (runes_of_ascii "
-packet
-    asx {match u128 as lengthOf
-{
-//	t
-// `tick` ""quote"" 'q'
-255 : x ,
-    } ,	} }")).
-Eval vm_compute in ("<<<M584>>>" ++ check (runes_of_ascii "
-packet
-    asx {match u128 as {
-lengthOf
-//	t
-// `tick` ""quote"" 'q'
-255 : x ,
-    } ,	}")).
-Eval vm_compute in ("<<<M625>>>" ++ check (runes_of_ascii "
-packet
-    asx {match u128 as lengthOf
-{
-//	t
-// `tick` ""quote"" 'q'
-255 : x ,
-    } ,")).
-Eval vm_compute in ("<<<M843>>>" ++ check (runes_of_ascii "packet A {
-  match k as n {
-    [1, ""bb"", 007, ""d"", 5, ""f"", 7] : B,
-    2 : C
-  },
-}")).
-Eval vm_compute in ("<<<M831>>>" ++ check (runes_of_ascii "packet A {
-  match k as n {
-    [1, ""bb"", 007, ""d"", 5, ""f""] : B
-    2 : C
-  },
-}")).
-Eval vm_compute in ("<<<M1568>>>" ++ check (runes_of_ascii "root
-
-packet
-
-    P
-	{ repeat
+    Logon
+, } options
+{ tag  = ' '  msg_type // " ++ [128512]%N ++ runes_of_ascii " emoji
+=  ""// no comment"" ; x_y_z
+=//x
+int32 calculatedFrom =// `tick` ""quote"" 'q'
 string
+; u128= char[]
+} packet BodyLength { char[]
+body @calculatedFrom(
+""" ++ [233]%N ++ runes_of_ascii "t" ++ [233]%N ++ runes_of_ascii """
+    // " ++ [128512]%N ++ runes_of_ascii " emoji
+    )
+    ,	uint16 MetaDataX @calculatedFrom(
+""a	b"" )  ,}
+")).
+Eval vm_compute in ("<<<M1363>>>" ++ check (runes_of_ascii "options {
+    LittleEndian = true;
+    StringPrefixLenType = u32;
+    ArrayPrefixLenType = u64;
+}
+packet Logon {
+    string OrderId,
+    uint32 lastPx,
+    repeat char[6] Side2,
+    i64 Tail,
+    repeat i8 f1,
+}
+packet Party {
+}
+packet Quote {
+    repeat char[6] clOrdID,
+    repeat Logon,
+}
+root packet Order {
+    zchar[5] Acct,
+    repeat f64 price,
+}
+")).
+Eval vm_compute in ("<<<M1902>>>" ++ check (runes_of_ascii "packet A
+	{
+	u8  a, }
+packet B 
+{
 
-    ss
-, repeat u16
+u16
+    b
+,
 
-ns,
+}  packet C
+
+{
+
+u32
+
+c 
+, 
+}
+root 
+packet
+M 
+{
+    u16
+
+Kc
+	, u16
+    Kb 
+,
+	u16	Ka, match
+
+    Kc
+
+    as
+    X  {
+	9:
+A
+,
+
+    10:
+B  ,
+	} ,
+match Kb
+
+    as Y	{ 
+2 :C
+
+,
+1
+:	A  , }	,
+    match
+Ka as 
+Z
+	{  1:
+    B
+
+, },  A
+
+,
+
+    B
+
+    ,	C, } ")).
+Eval vm_compute in ("<<<M1399>>>" ++ check (runes_of_ascii "  options
+
+    {LittleEndian =
+
+    true	;  }packet
+	Sub  {u8 a
+	, u16  SubSum @calculatedFrom(
+	""CRC16"" ) ,
 
     }
+	root
 
-")).
-Eval vm_compute in ("<<<M91>>>" ++ check (runes_of_ascii "packet
-roots{ }	MetaData
-    metadata{
-asx matchKey ,
-uint64
-rootA , }")).
-Eval vm_compute in ("<<<M1583>>>" ++ check (runes_of_ascii "packet u {
-    @tag(10)
-    tag @lengthOf(A),
-    repeat options1,
-}")).
-Eval vm_compute in ("<<<M918>>>" ++ check (runes_of_ascii "packet A {
-    B b `a
-b`,
-    B `a
-b`,
-    repeat B bs `a
-b`,
-}")).
-Eval vm_compute in ("<<<M1091>>>" ++ check (runes_of_ascii "packet A { @leftPad() char[4] x, @rightPad( ) zchar[2] y, }")).
-Eval vm_compute in ("<<<M627>>>" ++ check (runes_of_ascii "
 packet
-    asx {match u128 as lengthOf
-{
-//	t
-// `t")).
-Eval vm_compute in ("<<<M1216>>>" ++ check (runes_of_ascii "packet body { i32 f32a `{ , }` , } options
-// c
-{ }")).
-Eval vm_compute in ("<<<M921>>>" ++ check (runes_of_ascii "MetaData M {
-    u8 x `a
-b`,
-    T t `a
-b`,
-}")).
-Eval vm_compute in ("<<<M1511>>>" ++ check (runes_of_ascii "
+    Frame {u16
+MsgType,u16 BodyLen	@lengthOf(Body ) ,
+    Sub Body ,
+string
+note , 
+u16 Checksum
 
-  MetaData repeatCount
-
-    { }
-//	t
+    @calculatedFrom( ""CRC16"" )
+,u8  tail,
+	}
 ")).
-Eval vm_compute in ("<<<M1826>>>" ++ check (runes_of_ascii "packet A {
-    u8 x,// c
-    u8 y,
+Eval vm_compute in ("<<<M55>>>" ++ check (runes_of_ascii "MetaData // @lengthOf(
+calculatedFrom { /// triple
+matchKey packetx
+    , float32 u128 ,// `tick` ""quote"" 'q'
+}
+    MetaData uint8x { //	t
+zchar[ 65535
+]As
+    `` ,char[ 255] T
+`doc` ,zchar[// " ++ [128512]%N ++ runes_of_ascii " emoji
+255] int  , float64 i64_ //
+`tab	here` ,char[]  len , }
+")).
+Eval vm_compute in ("<<<M474>>>" ++ check (runes_of_ascii "packet
+    asx { @calculatedFrom(
+""""  ) @tag( 255 )repeat
+// packet A { u8 x, }
+// trailing space 
+int16 u8x
+,
+@tag(
+    //
+    007 )
+    @tag( uint32
+    /// triple
+    ) @tag( 1) u
+    @lengthOf( T ),
+// `tick` ""quote"" 'q'
+//x
+} // " ++ [128512]%N ++ runes_of_ascii " emoji")).
+Eval vm_compute in ("<<<M423>>>" ++ check (runes_of_ascii "packet
+    asx { @calculatedFrom(
+""""  ) @tag( ) 255 repeat
+// packet A { u8 x, }
+// trailing space 
+int16 u8x
+,
+@tag(
+    //
+    007 )
+    @tag( 0
+    /// triple
+    ) @tag( 1) u
+    @lengthOf( T ),
+// `tick` ""quote"" 'q'
+//x
+} // " ++ [128512]%N ++ runes_of_ascii " emoji")).
+Eval vm_compute in ("<<<M464>>>" ++ check (runes_of_ascii "packet
+    asx { @calculatedFrom(
+""""  ) @tag( 255 )repeat
+// packet A { u8 x, }
+// trailing space 
+int16 u8x
+,
+@tag(
+    //
+    007 [
+    @tag( 0
+    /// triple
+    ) @tag( 1) u
+    @lengthOf( T ),
+// `tick` ""quote"" 'q'
+//x
+} // " ++ [128512]%N ++ runes_of_ascii " emoji")).
+Eval vm_compute in ("<<<M516>>>" ++ check (runes_of_ascii "packet
+    asx { @calculatedFrom(
+""""  ) @tag( 255 )repeat
+// packet A { u8 x, }
+// trailing space 
+int16 u8x
+,
+@tag(
+    //
+    007 )
+    @tag( 0
+    /// triple
+    ) @tag( 1) u
+    @lengthOf( T )
+// `tick` ""quote"" 'q'
+//x
+} // " ++ [128512]%N ++ runes_of_ascii " emoji")).
+Eval vm_compute in ("<<<M321>>>" ++ check (runes_of_ascii "packet //x
+roots {
+    @rightPad
+    (	'\x00') @lengthOf(  calculatedFrom
+)	asx
+zchar	,char[255] charz // " ++ [27880; 37322]%N ++ runes_of_ascii "
+`" ++ [233]%N ++ runes_of_ascii "`
+//	t
+// 50% %s
+, @tag(	1 )
+repeat MetaDataX, repeat
+zchar[ 0] BodyLength  `a\`
+, } MetaData string_ { } 	 ")).
+Eval vm_compute in ("<<<M524>>>" ++ check (runes_of_ascii "packet
+    asx { @calculatedFrom(
+""""  ) @tag( 255 )repeat
+// packet A { u8 x, }
+// trailing space 
+int16 u8x
+,
+@tag(
+    //
+    007 )
+    @tag( 0
+    /// triple
+    ) @tag( 1) u
+    @lengthOf( T ),")).
+Eval vm_compute in ("<<<M1659>>>" ++ check (runes_of_ascii "packet u8x {
+    char[] f32a @lengthOf(Foo) `100% of %d`,
+    repeat i8i8 {
+        A f32a,
+        x `say ""hi""`,
+        // @lengthOf(
+        repeat body rootA `
+        `,
+    },
 }")).
-Eval vm_compute in ("<<<M1063>>>" ++ check (runes_of_ascii "packet A {
- u8 x `d x`, // c x
-}")).
-Eval vm_compute in ("<<<M1013>>>" ++ check (runes_of_ascii "packet A {
- u8 x `d" ++ [8232]%N ++ runes_of_ascii "`, // c" ++ [8232]%N ++ runes_of_ascii "
-}")).
-Eval vm_compute in ("<<<M1653>>>" ++ check (runes_of_ascii "
-
-  packet
-    falsey {
-
+Eval vm_compute in ("<<<M564>>>" ++ check (runes_of_ascii "MetaData u
+    { @rightPad MetaData o
+{ float uint8x
+`100% of %d` ,repeatCount u8x, string_ leftPad
+, i32
+    Foo , int64 x `two words` , calculatedFrom
+stringy `a\` ,
 }
 ")).
-Eval vm_compute in ("<<<M414>>>" ++ check (runes_of_ascii "packet uint8x
-{ match")).
-Eval vm_compute in ("<<<M115>>>" ++ check (runes_of_ascii "MetaData roots{ } 	 ")).
-Eval vm_compute in ("<<<M982>>>" ++ check (runes_of_ascii "// c" ++ [12288]%N ++ runes_of_ascii "
+Eval vm_compute in ("<<<M708>>>" ++ check (runes_of_ascii "MetaData u
+    { } MetaData o
+{ float uint8x
+`100% of %d` ,repeatCount u8x, string_ leftPad
+, i32
+    Foo , int64 " ++ [252]%N ++ runes_of_ascii "ber `two words` , calculatedFrom
+stringy `a\` ,
+}
+")).
+Eval vm_compute in ("<<<M704>>>" ++ check (runes_of_ascii "MetaData u
+    { } MetaData o
+{ float uint8x
+`100% of %d` ,repeatCount u8x, string_ leftPad
+, i32
+    " ++ [8232]%N ++ runes_of_ascii "Foo , int64 x `two words` , calculatedFrom
+stringy `a\` ,
+}
+")).
+Eval vm_compute in ("<<<M653>>>" ++ check (runes_of_ascii "MetaData u
+    { } MetaData o
+{ float uint8x
+`100% of %d` ,repeatCount u8x, string_ leftPad
+, i32
+    Foo , int64 `two words` x , calculatedFrom
+stringy `a\` ,
+}
+")).
+Eval vm_compute in ("<<<M606>>>" ++ check (runes_of_ascii "MetaData u
+    { } MetaData o
+{ float uint8x
+`100% of %d` ,repeatCount , string_ leftPad
+, i32
+    Foo , int64 x `two words` , calculatedFrom
+stringy `a\` ,
+}
+")).
+Eval vm_compute in ("<<<M604>>>" ++ check (runes_of_ascii "MetaData u
+    { } MetaData o
+{ float uint8x
+`100% of %d` ,u64 u8x, string_ leftPad
+, i32
+    Foo , int64 x `two words` , calculatedFrom
+stringy `a\` ,
+}
+")).
+Eval vm_compute in ("<<<M1584>>>" ++ check (runes_of_ascii "packet A {
+    Inner {
+        u8 x `tab
+                	x`,
+        Deep {
+            u8 y `tab
+                        	x`,
+        },
+    },
+}")).
+Eval vm_compute in ("<<<M1498>>>" ++ check (runes_of_ascii "
+packet A	{ match
+k	as
+
+n
+{
+[
+    ""a""
+,
+""bb""
+
+, 007
+
+    , ""d""  ,
+	""e"" ,
+
+66
+, ""g"", ""h""	,
+
+9
+	,	""j"",
+
+""k""  , 12]	:	B 2	:C 
+}
+
+,  } ")).
+Eval vm_compute in ("<<<M1708>>>" ++ check (runes_of_ascii "options {
+}
+
+options {
+    MetaDataX = char;
+}
+
+MetaData Pad {
+    i8 metadata,
+    string stringy,
+    int8 As `{ , }`,
+    // c
+}")).
+Eval vm_compute in ("<<<M1450>>>" ++ check (runes_of_ascii "packet A {
+    Inner {
+        u8 x `a
+        b`,
+        Deep {
+            u8 y `a
+            b`,
+        },
+    },
+}")).
+Eval vm_compute in ("<<<M1203>>>" ++ check (runes_of_ascii "options // c
+{ } options { MetaDataX = char ; } MetaData Pad { i8 metadata , string stringy , int8 As `{ , }` , }")).
+Eval vm_compute in ("<<<M1235>>>" ++ check (runes_of_ascii "options { } options { MetaDataX = char ; } MetaData Pad { i8 metadata , string // c
+stringy , int8 As `{ , }` , }")).
+Eval vm_compute in ("<<<M650>>>" ++ check (runes_of_ascii "MetaData u
+    { } MetaData o
+{ float uint8x
+`100% of %d` ,repeatCount u8x, string_ leftPad
+, i32
+    Foo ,")).
+Eval vm_compute in ("<<<M924>>>" ++ check (runes_of_ascii "packet A {
+    Inner {
+        u8 x `a
+b`,
+        Deep {
+            u8 y `a
+b`,
+        },
+    },
+}")).
+Eval vm_compute in ("<<<M62>>>" ++ check (runes_of_ascii "
+options
+    { calculatedFrom
+    =  int8 ;
+metadata
+=string ; Logon =
+    int8 //
+Foo = 42 ; }
+")).
+Eval vm_compute in ("<<<M860>>>" ++ check (runes_of_ascii "packet A {
+  match k as n {
+    [""a"", ""bb"", 007, ""d"", ""e"", 66, ""g"", ""h""] : B,
+    2 : C
+  },
+}")).
+Eval vm_compute in ("<<<M871>>>" ++ check (runes_of_ascii "packet A {
+  match k as n {
+    [1, 22, ""c c"", 4, 5, ""f"", 7, 8, ""i""] : B,
+    2 : C
+  },
+}")).
+Eval vm_compute in ("<<<M858>>>" ++ check (runes_of_ascii "packet A {
+  match k as n {
+    [1, 22, ""c c"", 4, 5, ""f"", 7, 8] : B,
+    2 : C
+  },
+}")).
+Eval vm_compute in ("<<<M845>>>" ++ check (runes_of_ascii "packet A {
+  match k as n {
+    [1, 22, ""c c"", 4, 5, ""f"", 7] : B,
+    2 : C
+  },
+}")).
+Eval vm_compute in ("<<<M833>>>" ++ check (runes_of_ascii "packet A {
+  match k as n {
+    [1, 22, ""c c"", 4, 5, ""f""] : B
+    2 : C
+  },
+}")).
+Eval vm_compute in ("<<<M1260>>>" ++ check (runes_of_ascii "packet Inner {
+    u8 a,
+}
+root packet P {
+    Inner ref_obj,
+    u8 x,
+}
+")).
+Eval vm_compute in ("<<<M807>>>" ++ check (runes_of_ascii "packet A {
+  match k as n {
+    [1, 22, ""c c"", 4] : B
+    2 : C
+  },
+}")).
+Eval vm_compute in ("<<<M1686>>>" ++ check (runes_of_ascii "root packet P {
+    u16 a,
+    u32 Sum @calculatedFrom(""CRC32""),
+}")).
+Eval vm_compute in ("<<<M777>>>" ++ check (runes_of_ascii "packet A {
+  match k as n {
+    [1, 22] : B
+    2 : C
+  },
+}")).
+Eval vm_compute in ("<<<M1557>>>" ++ check (runes_of_ascii "
+// `tick` ""quote"" 'q'
+		options	{f32a
+    = uint16
+	}
+")).
+Eval vm_compute in ("<<<M979>>>" ++ check (runes_of_ascii "MetaData M {
+    u8 x `%%d%!`,
+    T t `%%d%!`,
+}")).
+Eval vm_compute in ("<<<M949>>>" ++ check (runes_of_ascii "MetaData M {
+    u8 x `x
+`,
+    T t `x
+`,
+}")).
+Eval vm_compute in ("<<<M155>>>" ++ check (runes_of_ascii "options {stringy =
+i64 ; float = '0' }")).
+Eval vm_compute in ("<<<M1186>>>" ++ check (runes_of_ascii "options {
+// c
+A = ""// no comment"" }")).
+Eval vm_compute in ("<<<M1978>>>" ++ check (runes_of_ascii "packet A {
+    u8 x `
+        `,
+}")).
+Eval vm_compute in ("<<<M974>>>" ++ check (runes_of_ascii "root packet A {
+    u8 x `%`,
+}")).
+Eval vm_compute in ("<<<M183>>>" ++ check (runes_of_ascii "  packet len { repeat A , }
+")).
+Eval vm_compute in ("<<<M324>>>" ++ check (runes_of_ascii "packet
+BodyLength { }
+
+")).
+Eval vm_compute in ("<<<M1741>>>" ++ check (runes_of_ascii "// c" ++ [8192]%N ++ runes_of_ascii "
+  packet 
+A{ }
+")).
+Eval vm_compute in ("<<<M1011>>>" ++ check (runes_of_ascii "// c" ++ [133]%N ++ runes_of_ascii "
 packet A {
 }")).
-Eval vm_compute in ("<<<M1083>>>" ++ check (runes_of_ascii "packet A { // a
- }")).
-Eval vm_compute in ("<<<M1230>>>" ++ check (runes_of_ascii "packet x { // c
+Eval vm_compute in ("<<<M1484>>>" ++ check (runes_of_ascii "root packet a1 {
 }")).
-Eval vm_compute in ("<<<M1628>>>" ++ check (runes_of_ascii "packet A {
-}")).
-Eval vm_compute in ("<<<M1030>>>" ++ check (runes_of_ascii "// c" ++ [11]%N)).
+Eval vm_compute in ("<<<M299>>>" ++ check (runes_of_ascii "packet	zchar	{}
+")).
+Eval vm_compute in ("<<<M1684>>>" ++ check (runes_of_ascii "// c" ++ [133]%N ++ runes_of_ascii "
+ 
+")).
+Eval vm_compute in ("<<<M1849>>>" ++ check (runes_of_ascii "//
+")).
